@@ -2045,6 +2045,11 @@ func (cpu *CPU) op_mvn() {
 	dst := cpu.Bus.nRead(cpu.RK, cpu.StepInfo.Addr)
 	src := cpu.Bus.nRead(cpu.RK, cpu.StepInfo.Addr+1)
 
+	// the count is the full 16-bit C; with M=1 the live accumulator is RAh:RAl
+	if cpu.M == 1 {
+		cpu.RA = uint16(cpu.RAh)<<8 | uint16(cpu.RAl)
+	}
+
 	cpu.RDBR = dst
 	if cpu.X == 1 {
 		cpu.Bus.nWrite(dst, uint16(cpu.RYl), cpu.Bus.nRead(src, uint16(cpu.RXl)))
@@ -2068,6 +2073,11 @@ func (cpu *CPU) op_mvn() {
 func (cpu *CPU) op_mvp() {
 	dst := cpu.Bus.nRead(cpu.RK, cpu.StepInfo.Addr)
 	src := cpu.Bus.nRead(cpu.RK, cpu.StepInfo.Addr+1)
+
+	// the count is the full 16-bit C; with M=1 the live accumulator is RAh:RAl
+	if cpu.M == 1 {
+		cpu.RA = uint16(cpu.RAh)<<8 | uint16(cpu.RAl)
+	}
 
 	cpu.RDBR = dst
 	if cpu.X == 1 {
